@@ -221,6 +221,7 @@ type writeRec struct {
 	cell     *Cell
 	old, new Value
 	where    string
+	synced   bool // performed while holding a lock, inside sync.Once.Do or by an atomic operation
 }
 
 // colourValue marks every memory cell reachable from v.
@@ -296,7 +297,7 @@ func (m *Machine) installWriteLog() {
 			if n := len(m.stack); n > 0 {
 				where = m.stack[n-1]
 			}
-			m.writes = append(m.writes, writeRec{c, old, new, where})
+			m.writes = append(m.writes, writeRec{c, old, new, where, m.syncDepth > 0})
 		}
 		if prev != nil {
 			prev(c, old, new)
@@ -337,7 +338,7 @@ func init() {
 	reg("Written", func(m *Machine, fn *ssa.Function, a []Value) Value {
 		name := m.argStr(a[0])
 		for _, w := range m.writes {
-			if w.cell.Col == name {
+			if w.cell.Col == name && !w.synced {
 				if len(m.changedWhere) < 8 {
 					m.changedWhere = append(m.changedWhere, w.where+" writes "+w.cell.T.String())
 				}
@@ -360,7 +361,7 @@ func init() {
 		// number of writes to package-level variables of the module since EnableGlobalLog
 		n := 0
 		for _, w := range m.writes {
-			if w.cell.Col == "$global" {
+			if w.cell.Col == "$global" && !w.synced {
 				n++
 				if len(m.changedWhere) < 8 {
 					m.changedWhere = append(m.changedWhere, w.where+" writes global "+w.cell.Tag)
